@@ -70,4 +70,10 @@ var metas = map[string]*meta{
 		Rule: "rel: every string of length ≤5 (quick) / ≤7 (thorough) over the 13 symbols {a B 1 . + - @ \" \\ space [ ] :} plus 280 structured addresses (quoted/escaped locals, source routes, IPv4/IPv6 literals, mixed case, '+' and '.' placements), in each of local/full/domain naming; for every address NewRecipient accepts: name non-empty; ExtractMailbox(name)==name; read-time name == receive-time name; every accepted case variant and every accepted ±'+extension' variant names the same mailbox. agree: each structured address is delivered over SMTP and then asked for by the original address and by the name through REST list, web UI message and POP3 USER; each must show the message. Non-trivial = the address is accepted by RCPT; distinct strings.",
 		Assumptions: []string{"relations only (no expected names): fixed point, case, +extension, non-empty", "an address RCPT refuses is outside the property"},
 	},
+	"C18": {
+		ID: "C18", Level: "exploration",
+		Parts: []part{{Name: "all", Bin: "std", Shards: 16}},
+		Rule: "html: every sequence of ≤4 (quick) / ≤5 (thorough) fragments over 30 tokens (script/style/iframe/object/form/svg/math/textarea/title/noscript openers, mixed-case and unterminated tags, comment delimiters, href=\"…, javascript: with and without an entity-encoded tab, onclick injection through quote breaking, stray quotes and angle brackets, style attribute openers, entities, NUL, a forbidden CSS declaration); css: every sequence of ≤5 / ≤6 tokens over {color, position, w\\69 dth, :, ;, red, url(javascript:x), /*, */, \", ', @import, {, }, \\, !important, space} placed (HTML-escaped) in a style attribute; text: every sequence of ≤5 / ≤6 tokens over {<, >, &, \", http://a.b/c, www.a.bc/, (, ), CR, LF, javascript:x, a, ', <script>}. Output of sanitize.HTML is re-parsed with x/net/html: no forbidden element, no on* attribute, no javascript: URL, and every style value parsed by an independent CSS-Syntax-3 declaration-list parser yields only allow-listed properties; TextToHTML output re-parsed must contain only <a href target> and <br> and its text content must equal the input. Every case is distinct and non-trivial (each input is run through the sanitiser).",
+		Assumptions: []string{"x/net/html's parser stands for the browser's HTML parser", "the CSS oracle implements CSS Syntax Level 3 declaration-list parsing (comments, strings, escapes, blocks, url())", "a javascript: href inside an anchor that TextToHTML itself generates is counted, not alarmed on (the statement only restricts the text rendering to escaped text + server-generated anchors)"},
+	},
 }
